@@ -1,26 +1,68 @@
 ID = "C11"
 LEVEL = "model_checking"
-TECHNIQUE = "CBMC bounded symbolic execution of event_reinit (event.c) + evmap_reinit_ + epoll.c + signal.c on the child's side of a fork, against a two-instance epoll model with shared open file descriptions"
+TECHNIQUE = ("CBMC bounded symbolic execution of the child's side of fork + event_reinit: real event.c (event_reinit, event_add/del, loop), evmap.c (evmap_reinit_), "
+             "epoll.c (direct and changelist), signal.c, signalfd.c against a kernel model with two epoll instances and open file descriptions shared with the parent "
+             "(env/kernel_io.h vp_k_fork) plus the signal model of C07")
 UNITS = ["event.c", "evmap.c", "epoll.c", "signal.c", "signalfd.c"]
-FUNCTIONS = ["event_reinit", "evmap_reinit_", "evmap_io_reinit_iter_fn", "evmap_signal_reinit_iter_fn", "epoll_init", "epoll_dealloc", "evsig_init_", "evsig_dealloc_",
-             "evsig_add", "evsig_set_handler_", "evthread_make_base_notifiable_nolock_", "event_changelist_freemem_"]
-BOUNDS = ""
-OUT = ""
-TEXT = ""
-NOTE = ""
-ASSUMPTIONS = []
-DESIGN_REF = "DESIGN.md §5 C11"
+FUNCTIONS = ["event_reinit", "evmap_reinit_", "evmap_io_reinit_iter_fn", "evmap_signal_reinit_iter_fn", "epoll_init", "epoll_dealloc", "epoll_nochangelist_add",
+             "event_changelist_add_", "event_changelist_freemem_", "evsig_init_", "evsig_dealloc_", "evsig_add", "evsig_set_handler_", "evsig_restore_handler_",
+             "sigfd_add", "sigfd_free_sigevent", "evthread_make_base_notifiable_nolock_", "event_del_nolock_", "event_add_nolock_", "epoll_dispatch", "evsig_cb", "sigfd_cb"]
+BOUNDS = ("base with 2 I/O events (fd A, fd B; interest masks and EV_ET fixed per obligation from a small set) and 1 signal event, every subset added before the fork; "
+          "epoll direct and epoll+changelist; self-pipe and signalfd signal mechanisms; with and without a wake-up (notify) descriptor; the parent has been through one "
+          "wait before the fork; after event_reinit the child raises the signal, fd A becomes ready and one loop iteration runs, then the signal event is deleted")
+OUT = ("behaviour of two real processes and of the parent after the fork (the parent side is represented by its epoll interest list and descriptor table, which must stay "
+       "untouched); events that are active or being deleted at fork time; timers across reinit (C01 owns timer semantics); poll/select/kqueue back ends' reinit; "
+       "event_reinit failure paths (epoll_create / pipe failing); symbolic interest masks (fixed per obligation - the symbolic-mask interest-set predicate is C05's)")
+TEXT = ("After fork + event_reinit in the child: the child owns a new epoll instance, no epoll_ctl ever names the parent's (shared) instance and the parent's interest list is "
+        "unchanged; every I/O event added before the fork is registered with the new instance with exactly its conditions (C05 predicate at the child's waits); signal "
+        "handlers/signalfds are set up again on descriptors the child does not share with the parent, the child's copies of the parent's signal pipe and wake-up "
+        "descriptor are closed, the events' added state is unchanged; a signal raised in the child and a ready fd make the pre-fork events fire in the child; deleting "
+        "the signal event restores the disposition from before the first add; no descriptor number is closed twice.")
+NOTE = ("Trusted: cbmc; env/kernel_io.h (incl. fork semantics: shared open file descriptions keep their epoll registrations when the child closes its descriptor), "
+        "env/sigmodel.h, env/evbase.h, env/event_struct_nounion.h (unions of event_struct.h compiled as structs), typed allocation stand-ins. "
+        "DESIGN.md candidate 'signal pair closed in event_reinit and again in evsig_dealloc_': CONFIRMED (fixes/C11-reinit-double-close.*).")
+ASSUMPTIONS = [
+    "kernel behaves per env/kernel_io.h + env/sigmodel.h; after fork every open file description is shared with the parent, descriptor numbers are handed out lowest-free-first",
+    "the forked child is single-threaded and calls event_reinit before anything else touches the base",
+    "allocation and descriptor-creating calls succeed",
+    "struct event / struct event_callback unions laid out as structs (env/event_struct_nounion.h)",
+]
+DESIGN_REF = "DESIGN.md §5 C11, §7"
 
 USET = (["evsig_cb.%d:66" % i for i in range(7)] + ["evsig_dealloc_.%d:66" % i for i in range(3)] +
         ["evmap_io_active_.0:3", "evmap_signal_active_.0:3", "event_base_loop.16:4", "event_signal_closure.6:3", "read.0:5",
          "evmap_signal_foreach_signal.0:34", "evmap_io_foreach_fd.0:34", "evmap_signal_clear_.0:34", "event_process_active_single_queue.21:6",
-         "epoll_apply_changes.0:5", "event_changelist_remove_all_.1:5"])
+         "epoll_apply_changes.0:6", "event_changelist_remove_all_.1:6", "vp_realloc_signal.0:66"])
 
-def ob(name, extra=(), **kw):
-    d = dict(name=name, harness="C11_reinit.c", entry="harness_reinit", defines=list(extra),
-             unwind=13, unwindset=USET, cbmc=["--max-field-sensitivity-array-size", "1100"], timeout=900, mem_gb=8, desc=" ".join(extra))
+R, W, C = 2, 4, 0x80
+
+def ob(name, added, m0=R | C, m1=R | W, et0=0, et1=1, extra=(), **kw):
+    defs = ["VP_ADDED=%d" % added, "VP_MASK0=%d" % m0, "VP_MASK1=%d" % m1, "VP_ET0=%d" % et0, "VP_ET1=%d" % et1] + list(extra)
+    d = dict(name=name, harness="C11_reinit.c", entry="harness_reinit", defines=defs,
+             unwind=13, unwindset=USET, cbmc=["--max-field-sensitivity-array-size", "1100"], timeout=900, mem_gb=8,
+             desc="child side of fork+event_reinit: added=%d (bit0 ev A, bit1 ev B, bit2 signal) masks %#x/%#x ET %d/%d %s" % (added, m0, m1, et0, et1, " ".join(extra)))
     d.update(kw)
     return d
 
 def obligations(tier):
-    return [ob("epoll_all_added", ["VP_ADDED=7"])]
+    kf = ["KF_SKIP_DOUBLE_CLOSE"]
+    obs = []
+    # the confirmed DESIGN candidate: signal pair closed by event_reinit and again by evsig_dealloc_
+    obs.append(ob("reinit_kf_double_close", 7, extra=[],
+                  expect_fail=["event_reinit closes a descriptor number it has already closed"], known_finding="KF-C11-reinit-double-close"))
+    for added in (7, 3, 4, 5, 1, 0):
+        obs.append(ob("epoll_added%d" % added, added, extra=kf))
+    obs.append(ob("epoll_masks_w_rwc", 7, m0=W, m1=R | W | C, et0=1, et1=0, extra=kf))
+    obs.append(ob("epoll_masks_r_c", 7, m0=R, m1=C, et0=0, et1=0, extra=kf))
+    for added in (7, 3, 4):
+        obs.append(ob("epollcl_added%d" % added, added, extra=kf + ["VP_CHANGELIST"]))
+        obs.append(ob("sigfd_added%d" % added, added, extra=kf + ["VP_SIGFD"]))
+    obs.append(ob("notify_added7", 7, extra=kf + ["VP_NOTIFY"]))
+    obs.append(ob("notify_locked_added5", 5, extra=kf + ["VP_NOTIFY", "VP_LOCKS_ON", "VP_WITH_LOCK"]))
+    if tier == "thorough":
+        obs.append(ob("epoll_added7_ndebug", 7, extra=kf, ndebug=True))
+        obs.append(ob("sigfd_added7_ndebug", 7, extra=kf + ["VP_SIGFD"], ndebug=True))
+        obs.append(ob("epollcl_notify_added7", 7, extra=kf + ["VP_CHANGELIST", "VP_NOTIFY"]))
+        for m0, m1 in ((R | W, R), (C, W), (R | W | C, R | W | C)):
+            obs.append(ob("epoll_masks_%x_%x" % (m0, m1), 7, m0=m0, m1=m1, et0=1, et1=1, extra=kf))
+    return obs
